@@ -12,4 +12,15 @@ Bound == Len(hist) <= Depth
 PrintAtDepth == Len(hist) = Depth + 1 => PrintT(<<"B", ToJson(hist)>>)
 BoundTree == Len(hist) <= Depth + 1
 Edge == PrintT(<<"B", ToJson(hist')>>)
+
+(* Wake / readiness core for COMPLETE trees: the implementation keeps per-subscriber state the model does   *)
+(* not distinguish (a clone and a fresh subscriber are the same model state), so every path over a small   *)
+(* alphabet is generated, not just one path per model transition.                                          *)
+NextWake ==
+    \/ Set("o", 1, 1) \/ UpdateIf("o", 1, 1, FALSE) \/ DropOwner(1)
+    \/ \E n \in NewSub : Subscribe(1, n)
+    \/ \E s \in SubIds :
+          \/ Poll(s, "Poll") \/ NextNow(s) \/ Reset(s)
+          \/ \E n \in NewSub : CloneSub(s, n)
+SpecWake == Init /\ [][NextWake]_vars
 =============================================================================
